@@ -245,6 +245,53 @@ theorem okAt_branch (F : Fn) (A : Ann) (pc : Nat) (d : Bool) (off : Int) (t : Na
     · exact ⟨τ₁, h1, hle1⟩
     · exact ⟨τ₂, h2, hle2⟩
 
+/-- `tailGuard → behind x ; x` (fix C09-02): the guard pops nothing; taken or not, the state is `σ`;
+`x` (operands and the tail sequence, ending in `goto 0`) is annotated `σ` behind its end, which
+is where the guard skips to -/
+theorem efrag_guard_skip {Γ : Env} {x : List BInstr} {σ : AState} (off : Int) (hoff : off = (x.length : Int) + 1)
+    (hw : σ.wf = true) (hx : ExprFrag Γ x σ σ) :
+    ExprFrag Γ ([BInstr.tailGuard off] ++ x) σ σ := by
+  obtain ⟨mx, fx⟩ := hx
+  have lx := frag_mid_len fx
+  refine ⟨σ :: mx, ?_, ?_, ?_⟩
+  · simp only [List.length_append, List.length_cons, List.length_nil]; omega
+  · intro s hs
+    simp only [List.mem_append, List.mem_cons, List.mem_nil_iff, or_false, List.cons_append] at hs
+    rcases hs with rfl | rfl | hs | rfl
+    · exact hw
+    · exact hw
+    · exact fx.2.1 s (by simp [hs])
+    · exact hw
+  · intro F A L hp henv
+    have hp' : Placed F A L ([BInstr.tailGuard off] ++ x) (σ :: ([] ++ σ :: (mx ++ [σ]))) := by simpa using hp
+    obtain ⟨qg, rx⟩ := placed_step (c := [BInstr.tailGuard off]) (m := []) hp' rfl
+    have qx : Placed F A (L + 1) x (σ :: mx ++ [σ]) := rx
+    have hlast := placed_bound hp' x.length (by simp)
+    have hcg := qg.1 0 (by simp)
+    have hag := qg.2 0 (by simp)
+    have ha1 := qx.2 0 (by simp)
+    have haE := qx.2 (mx.length + 1) (by simp)
+    simp only [Nat.add_zero, List.getElem?_cons_zero, List.cons_append] at hcg hag ha1
+    have haE' : annAt A (L + 1 + (mx.length + 1)) = some σ := by
+      rw [haE]
+      simp [List.getElem?_append_right]
+    have Rg : OkRange F A L (L + 1) := by
+      apply okRange_one
+      refine okAt_intro F A L _ σ [(L + 1, σ), (L + 1 + (mx.length + 1), σ)] hcg hag hw ?_ ?_
+      · have ht : target L off F.code.length = some (L + 1 + (mx.length + 1)) :=
+          target_eq _ _ _ _ (by rw [hoff]; push_cast; omega) (by omega)
+        simp only [astep, eff, ht]
+      · intro q hq
+        simp only [List.mem_cons, List.mem_nil_iff, or_false] at hq
+        rcases hq with rfl | rfl
+        · exact ⟨σ, ha1, le_refl σ⟩
+        · exact ⟨σ, haE', le_refl σ⟩
+    have Rx := okRange_of_frag fx qx henv
+    have Rall := okRange_append Rg Rx
+    intro i hi
+    simp only [List.length_append, List.length_cons, List.length_nil] at hi
+    exact Rall (L + i) (by omega) (by omega)
+
 /-! ## The loop layout -/
 
 /-- the state inside a loop: one more scope, the loop's stack-mark region (count `c`) on top -/
